@@ -2,6 +2,7 @@
 (proof + translator tie + bit-exact correspondence of the monitor + implementation-side recomputation of fits)."""
 import collections
 import os
+import shlex
 import shutil
 import vlib
 
@@ -17,19 +18,74 @@ MANIFEST = dict(
           "class on all histories up to length 8 over 5-symbol alphabets x patience 1..4 x with/without validation plus "
           "random long ones, and with gboost::result_t driven like the boosting loop. Linear and gradient-boosting models "
           "are fitted on small random datasets (losses, weak-learner pools, shrinkage, subsampling, wscale, folds, both "
-          "tuners/splitters) and every stored statistic is recomputed by predicting with the stored model."),
-    note=("Coq kernel; translator (18 kernels); extraction with ExtrOCamlFloats/ExtrOCamlInt63 (binary64 = OCaml floats); "
+          "tuners/splitters) and every stored statistic is recomputed by predicting with the stored model. "
+          "Extension 'assemble': the model-assembly code of src/gboost/model.cpp is inside the model, on top of the C10 learner "
+          "model (predict/scale/try_merge/merge re-used, not restated): do_predict (row assigned the bias, learners added in list "
+          "order), the per-round accumulation of the outputs buffer in ::fit (scale by gstate.x()*shrinkage_ratio, local "
+          "shrinkage), result.done(optimum.round()) (erase, then merge) and the block of gboost_model_t::fit that resets the "
+          "object, reads the fold models of the optimum trial from m_extras, sums biases, concatenates, merges and scales by "
+          "1/folds; the loop bounds, the 1/folds factor, the (trial, fold) read, the reset of the learner list, the assignment "
+          "operator of do_predict and the cut-back index are translated kernels. Proved for every number of folds, every list of "
+          "learners, every sample: predict = bias + sum of learners whatever the buffer held; the loop's outputs are the "
+          "predictions of the learners stored so far; the cut-back keeps (the merge of) exactly the learners of the rounds before "
+          "the optimum round and predicts the outputs the loop held at that round; closed form of the assembled model (bias = "
+          "average of the fold biases, learners = merge of the concatenation scaled by 1/folds, independent of the previous state "
+          "of the object: a re-fit starts from an empty list); the final model predicts the average of the fold models. Tie: the "
+          "extracted assembly (exact rationals) is run on the serialised fold models of every real fit and compared with the real "
+          "final model (learner counts and structure exactly, coefficients within 1e-12 of the summed magnitudes), the proved "
+          "clauses are evaluated on the real per-learner prediction vectors (1e-9 of the summed magnitudes), predict() is called "
+          "on a buffer holding other values, and the real gboost::result_t::done is run on mergeable fitted learners."),
+    note=("Coq kernel; translator (28 kernels); extraction with ExtrOCamlFloats/ExtrOCamlInt63 (binary64 = OCaml floats); "
           "harness + OCaml driver; the fitting pipeline (solvers) is an oracle: searched, not proved; statistics compared "
-          "within 1e-9 relative (Eigen reductions, merged learners), monitor compared bit-exactly."),
+          "within 1e-9 relative (Eigen reductions, merged learners), monitor compared bit-exactly. Assemble stage: second "
+          "extraction with ExtrOcamlZBigInt + ocaml/c11_asm_driver.ml; the C10 learner model (tied to the real weak learners by "
+          "the C10 check) is part of its trusted base; the boosting loop of ::fit lives in an anonymous namespace, its model "
+          "(bloop) is tied by reading and by the recomputation of the stored statistics, not by a differential run; diverged "
+          "fits (contributions beyond 1e6) are excluded from the fold-average comparison of predictions, not from the exact "
+          "comparison of the assembled learners."),
     technique="Coq proof over a translated+extracted model, exhaustive bit-exact differential correspondence, implementation-side recomputation",
     design="DESIGN.md section 2, C11")
 
 VARIANTS = ["rel"]
 
 
+def _build_asm_driver():
+    """driver of the extension stage "assemble": its extracted model (extracted/c11_asm_model.ml, second Extraction command of
+    Extract_C11.v) maps Z to Zarith big integers, so the shared zutil.ml.inc (helpers for the inductive Z) cannot be prefixed:
+    private variant of vlib.build_ocaml (same scheme as tools/checks/c10.py)"""
+    odir = os.path.join(vlib.WORK, "ocaml")
+    os.makedirs(odir, exist_ok=True)
+    exe = os.path.join(odir, "c11_asm_driver")
+    model = os.path.join(vlib.COQ, "extracted", "c11_asm_model.ml")
+    driver = os.path.join(vlib.ROOT, "ocaml", "c11_asm_driver.ml")
+    with vlib.Lock("ocaml-c11_asm_driver"):
+        srcs = [model, model + "i", driver]
+        for s in srcs:
+            if not os.path.exists(s):
+                raise vlib.CheckError("missing %s (extraction failed?)" % s)
+        if os.path.exists(exe) and all(os.path.getmtime(s) <= os.path.getmtime(exe) for s in srcs):
+            return exe
+        bd = os.path.join(odir, "c11_asm_driver.build")
+        vlib.sh("rm -rf %s && mkdir -p %s" % (shlex.quote(bd), shlex.quote(bd)))
+        for s in (model, model + "i"):
+            vlib.sh("cp %s %s/" % (shlex.quote(s), shlex.quote(bd)))
+        with open(os.path.join(bd, "driver_main.ml"), "w") as f:
+            f.write("open C11_asm_model\n# 1 \"c11_asm_driver.ml\"\n")
+            f.write(open(driver).read())
+        cmd = "ocamlfind ocamlopt -w -a -package zarith -linkpkg c11_asm_model.mli c11_asm_model.ml driver_main.ml -o %s" % shlex.quote(exe)
+        rc, out = vlib.sh(cmd, cwd=bd, timeout=600)
+        if rc != 0:
+            raise vlib.CheckError("ocaml build of c11_asm_driver failed:\n%s" % out[-3000:])
+    return exe
+
+
 def setup():
     vlib.build_harness("c11_gboost", "rel", need_lib=True)
     vlib.build_ocaml("c11_driver", "c11_model.ml", "c11_driver.ml", floats=True)
+    try:
+        _build_asm_driver()
+    except vlib.CheckError:
+        pass  # extraction not built yet: run() builds it after coq_check
 
 
 def _grep(path, prefixes, limit=None):
@@ -76,7 +132,7 @@ def run(tier, replay=None):
                 d = int(l.split(" ", 2)[1])
                 chain[d + 1] = hash((chain.get(d, 0), l))
                 distinct.add(chain[d + 1])
-            elif op in ("LOOP", "GBH"):
+            elif op in ("LOOP", "GBH", "ASMFINAL"):
                 distinct.add(hash(l))
             if op in ("ES", "LOOP", "GBH", "FIT") and len(samples.setdefault(op, [])) < 2 and ops[op] % 97 == 5:
                 samples[op].append(l.rstrip("\n")[:400])
@@ -128,17 +184,54 @@ def run(tier, replay=None):
             r.violation("corr-%d" % i, {"kind": "model/implementation disagreement (bit-exact comparison)", "case": l[:8000],
                                         "meaning": "early_stopping_t / gboost::result_t differ from the extracted Coq model on this history"},
                         no_input=not impl_fail)
+    # 4b. extension stage "assemble": the assembly of the final boosting model re-computed with the extracted model
+    # (C11_Assemble_Defs over exact rationals) from the fold models the real fit stored, and the proved clauses evaluated on
+    # the real per-learner prediction vectors
+    asm_mism, asm_prop, asm_checked, asm_done = [], [], 0, {}
+    adrv = None
+    try:
+        adrv = _build_asm_driver()
+    except (vlib.CheckError, OSError):
+        if cres["ok"]:
+            raise
+    if adrv:
+        rc3, aout = vlib.sh("grep -a '^ASM' %s | %s" % (shlex.quote(outf), shlex.quote(adrv)), timeout=3000)
+        for l in aout.split("\n"):
+            if l.startswith("MISMATCH"):
+                asm_mism.append(l)
+            elif l.startswith("PROPFAIL"):
+                asm_prop.append(l)
+            elif l.startswith("ASM-DONE"):
+                asm_done = dict(t.split("=") for t in l.split()[1:] if "=" in t)
+            elif l.startswith("MODEL-DONE"):
+                asm_checked = int(l.split("checked=")[1].split()[0])
+        if not asm_checked and not crashed:
+            r.violation("asm-driver", {"kind": "model driver of the assemble stage failed", "out": aout[-2000:]}, no_input=True)
+        for i, l in enumerate(asm_prop[:3]):
+            r.violation("asm-prop-%d" % i, {"kind": "assembly of the final boosting model: a proved clause fails on the real per-learner "
+                                                    "predictions / the real learners (computed by the extracted model in exact rationals)",
+                                            "case": l[:6000], "replay_cmd": "VERIF_SEED=%d %s %s fit | grep -a '^ASM' | %s" % (r.seed, exe, tier, adrv)})
+        for i, l in enumerate(asm_mism[:3]):
+            r.violation("asm-corr-%d" % i, {"kind": "model/implementation disagreement in the assemble stage: the final model of gboost_model_t::fit / the "
+                                                    "learners kept by gboost::result_t::done / do_predict differ from what the extracted model computes "
+                                                    "from the stored fold models", "case": l[:6000],
+                                            "replay_cmd": "VERIF_SEED=%d %s %s fit | grep -a '^ASM' | %s" % (r.seed, exe, tier, adrv)},
+                        no_input=not (asm_prop or impl_fail))
     vlib.handle_coq_failure(r, cres)
     vlib.proof_coverage(r, cres, "make -C coq theories/Properties_C11.vo && coqc theories/Properties_C11.v (Print Assumptions)",
-                        ["tools/translate.py (18 kernels of early_stopping.cpp, gboost/util.cpp, gboost/result.cpp, machine/result.cpp, machine/tune.cpp)",
+                        ["tools/translate.py (28 kernels of early_stopping.cpp, gboost/util.cpp, gboost/result.cpp, gboost/model.cpp, machine/result.cpp, machine/tune.cpp)",
                          "extraction: ExtrOcamlBasic + ExtrOCamlFloats + ExtrOCamlInt63 (binary64 and uint63 mapped to OCaml's native ones; Z/nat extracted as inductives)",
                          "PrimFloat = IEEE-754 binary64 as computed by g++ -O2 on x86-64 SSE2 (no -ffast-math) for +, -, /, <",
-                         "ocaml/c11_driver.ml, harness/c11_gboost.cpp (independent oracles, tolerance 1e-9 relative for recomputed statistics)"])
+                         "ocaml/c11_driver.ml, harness/c11_gboost.cpp (independent oracles, tolerance 1e-9 relative for recomputed statistics)",
+                         "assemble stage: second extraction of Extract_C11.v with ExtrOcamlZBigInt (Z = Zarith), ocaml/c11_asm_driver.ml (parsing of the "
+                         "serialised learners, tolerances 1e-12 / 1e-9 of the summed magnitudes), the C10 learner model (coq/theories/C10_Defs.v, tied to "
+                         "the real weak learners by the C10 check)"])
     cov = r.coverage
     dl = done[0] if done else ""
     kv = dict(t.split("=") for t in dl.split()[1:] if "=" in t)
-    cov["evaluations"] = sum(ops[k] for k in ("ES", "LOOP", "GBH")) + int(kv.get("fit_checks", 0))
+    cov["evaluations"] = sum(ops[k] for k in ("ES", "LOOP", "GBH")) + int(kv.get("fit_checks", 0)) + asm_checked
     cov["correspondence_lines_checked"] = checked
+    cov["assemble_stage"] = dict(fits_checked=asm_checked, mismatches=len(asm_mism), proved_clause_failures=len(asm_prop), **asm_done)
     cov["distinct_nontrivial"] = len(distinct)
     cov["rule"] = ("distinct monitor call histories (an ES line together with the chain of calls before it), loop runs and stored fold histories; "
                    "exhaustive: every history over two 5-symbol alphabets (one aimed at the eps / train-exit boundaries, one seeded) up to "
@@ -160,8 +253,12 @@ def run(tier, replay=None):
         "last kept statistics row = means of the stored fold model's errors/losses; stored (train, valid) error history replayed through "
         "the property oracle and through the extracted monitor: never stops before the kept round, which is the last accepted one",
         "number of weak learners of a fold model = its kept round (exactly for non-merging pools, <= otherwise)",
-        "final boosting model predicts bias + sum of weak learners and the average of the fold models of the optimum trial; "
+        "the real final boosting model is the one the proved assembly model builds from the stored fold models (the clauses "
+        "'predict = bias + sum of weak learners' and 'final model = average of the fold models of the optimum trial' are theorems "
+        "about the model; on the implementation they are evaluated on every fit); "
         "optimum trial = first minimum of the mean validation error; linear refit stored in extra() is the model",
+        "the outputs buffer of the boosting loop in ::fit (anonymous namespace) follows the proved loop model: observed through the "
+        "stored per-round statistics recomputed from the stored fold model",
         "ml::result_t store/extra/stats read back what was stored for every (trial, fold) (slot arithmetic itself is proved)",
         "statistics of constant per-sample vectors (ml::result_t::store on n equal values, n = 2..12 x 40 values + seeded ones, and fits on "
         "constant targets): mean = the value, deviation 0 within tolerance and never NaN, count, percentiles"]
